@@ -278,7 +278,7 @@ theorem micros_prot {root} {t : Nat} (ms : List Micro) : ∀ {c c' : Ctx}, CInv 
         (micro_prot h m hc1 (hm m (by simp)) p)
 
 /-- Everything strongly reachable from a safe object is safe. -/
-theorem safe_closure {c : Ctx} {root} (h : CInv c root []) {t : Nat} (hs : Safe c t) {j : Nat}
+theorem safe_closure {c : Ctx} {root temps hole} (h : CInvH c root temps hole) {t : Nat} (hs : Safe c t) {j : Nat}
     (hj : AccessibleC c [] [Ptr.strong t] j) : Safe c j := by
   induction hj with
   | root x hx => cases hx
